@@ -291,7 +291,9 @@ H2CMove(S, pid) ==
                 S1 == [S EXCEPT !.buf.coldFree = @ - x, !.buf.hotFree = @ + x,
                                 !.buf.coldTr = IF left2 = 0 THEN "" ELSE o,
                                 !.buf.coldStored = IF left2 = 0 THEN Append(@, o) ELSE @,
-                                !.buf.hotTr = IF left2 = 0 THEN "" ELSE o,
+                                (* the source tier only fills an empty transfer slot (two *)
+                                (* concurrent moves share the slot, the code's own TODO)  *)
+                                !.buf.hotTr = IF left2 = 0 THEN "" ELSE (IF @ = "" THEN o ELSE @),
                                 !.buf.dataLeft = left2,
                                 !.procs[pid].left = left2]
             IN Sleep(S1, pid, STEP)
@@ -323,7 +325,7 @@ C2HMove(S, pid) ==
                 S1 == [S EXCEPT !.buf.hotFree = @ - x, !.buf.coldFree = @ + x,
                                 !.buf.hotTr = IF l2 = 0 THEN "" ELSE o,
                                 !.buf.hotStored = IF l2 = 0 THEN Append(@, o) ELSE @,
-                                !.buf.coldTr = IF l2 = 0 THEN "" ELSE o,
+                                !.buf.coldTr = IF l2 = 0 THEN "" ELSE (IF @ = "" THEN o ELSE @),
                                 !.procs[pid].left = l2]
             IN Sleep(S1, pid, STEP)
 C2HStep(S, pid) ==
